@@ -285,6 +285,8 @@ def bytes (s : Str) : List Nat := JL.Spec.Utf8.encode s
 @[rs] def saturating_sub (a b : Nat) : Nat := a - b                              -- truncated subtraction is what saturation at 0 means
 /-- `std::mem::take(&mut x)` as a value: what was in `x` (the translator re-binds `x` to its default separately) -/
 @[rs] def mem_take {α : Type} (a : α) : α := a
+/-- what `std::mem::take` leaves behind in a `String` / `Vec` -/
+@[rs] theorem default_list {α : Type} : (default : List α) = [] := rfl
 @[rs] def unwrap_or_else {α : Type} (o : Option α) (g : Unit → α) : α := match o with | some x => x | none => g ()
 @[rs] def flatten {α : Type} (o : Option (Option α)) : Option α := o.join                              -- machine integers are rendered as unbounded (see header)
 class RMinMax (α : Type) where
